@@ -149,6 +149,10 @@ def run_check(pid, tier, replay=None):
     ctx = Ctx(pid, tier, seed)
     level = getattr(mod, "LEVEL", "model_checking")
     ev_path = os.path.join(EVID, "%s.json" % pid)
+    if not replay and os.path.isdir(REPLAY):
+        for f in os.listdir(REPLAY):          # replays of an earlier run of this check are stale
+            if f.startswith(pid + "-"):
+                os.remove(os.path.join(REPLAY, f))
     try:
         if replay:
             mod.replay(ctx, replay)
